@@ -808,13 +808,13 @@ namespace
     }
     value resize_array_scalar(runtime& runtime, value::cref left, value::cref right)
     {
-        auto i = right.data<d_scalar, size_t>();
-        if (i < 0)
+        auto f = right.data<d_scalar, float>();
+        if (!(f >= 0))
         {
             runtime.__logmsg(err::NegativeSize(runtime.context_active().current_frame().diag_info_from_position()));
             return {};
         }
-        left.data<d_array>()->resize(i);
+        left.data<d_array>()->resize(static_cast<size_t>(f));
         return {};
     }
     value deleterange_array_array(runtime& runtime, value::cref left, value::cref right)
@@ -843,7 +843,12 @@ namespace
             runtime.__logmsg(err::IndexOutOfRangeWeak(runtime.context_active().current_frame().diag_info_from_position(), arr->size(), to));
             to = (int)(arr->size() - 1);
         }
-        arr->erase(arr->begin() + from, arr->begin() + to + 1);
+        if (from > to + 1)
+        {
+            // start index is beyond the end of the array: nothing to delete
+            return {};
+        }
+        arr->erase(arr->begin() + from, arr->begin() + (to + 1));
         return {};
     }
     value pushback_array_any(runtime& runtime, value::cref left, value::cref right)
